@@ -39,7 +39,9 @@ LEVEL_TEXT = ("Machine-checked Coq theorems over an executable model of Row.as_b
               "emitted under every schedule); the step model is tied to the code by forcing, with real threads, one thread switch before each "
               "bytecode instruction of as_bytes / from_bytes / Row.__new__ while a second thread encodes and decodes another row, and comparing "
               "every record both threads get back with the model in Coq. Text is stored verbatim (the record determines the row: encode_row is "
-              "injective); the correspondence sweeps every code point that a Unicode normal form, a case mapping or strip() would rewrite.")
+              "injective); the correspondence sweeps every code point that a Unicode normal form, a case mapping or strip() would rewrite. "
+              "Every entry point: classes made by Row.create_class (any number of field names, plain or tuples_only) and from_bytes_cython called "
+              "directly are modelled and proved to agree with the base encoder / decoder; every row case is also encoded and decoded through them.")
 LEVEL_NOTE = ("Trusted: Coq kernel + vm_compute; the hand-written msgpack reader/writer model (ormsgpack itself is Rust: validated byte-for-byte "
               "by the correspondence, not verified); the Python object <-> value-tree mapping of the harness (tuples become lists, dict = "
               "insertion-ordered association list, floats by their 64 bits); time.time_ns() is an input. compiled.pyx cannot be rebuilt: its "
@@ -587,7 +589,101 @@ def observe(case):
                 o = ["ok-unchanged"]      # same row as the unflipped record decodes to
             fl.append([i, b, o])
     obs["flips"] = fl
+    obs["paths"] = _observe_paths(case, row_obj, rec, out, vals)
     return obs
+
+
+# ---- the other entry points: classes made by Row.create_class, from_bytes_cython called directly ------------
+_CLASSES = {}
+
+
+def _row_class(n, tuples_only):
+    import orso.row as R
+
+    key = (id(R.Row), n, bool(tuples_only))
+    if key not in _CLASSES:
+        _CLASSES[key] = R.Row.create_class(tuple("c%d" % i for i in range(n)), tuples_only=bool(tuples_only))
+    return _CLASSES[key]
+
+
+def _path_classes(case, width, reclen):
+    """[nfields, tuples_only] of the made classes a row case is routed through (from_bytes_cython always is)"""
+    if "classes" in case:
+        return [list(c) for c in case["classes"]]
+    if reclen > BIG:
+        return [[width + 1, False]]
+    # a class with more field names than the row has values, plain or tuples_only, and alternately a narrower one
+    return [[width + 1, bool(case["ts"] & 2)], [max(width - 1, 0), True] if case["ts"] & 1 else [width + 3, not case["ts"] & 2]]
+
+
+PATHS_COQ_LIMIT = 20000
+PATH_TEARS = [0, 1, 13, 14, 15]
+PATH_FLIPS = [[0, 4], [0, 7], [2, 0], [5, 0], [5, 7]]
+
+
+def _path_samples(rec):
+    """the mutated records every second entry point is shown (the same list as path_samples in Model/C01.v)"""
+    n = len(rec)
+    out = [("prefix of length %d" % k, rec[:k]) for k in PATH_TEARS + [n - 1] if 0 <= k < n]
+    out.append(("one zero byte appended", rec + b"\x00"))
+    for i, b in PATH_FLIPS:
+        m = bytearray(rec)
+        m[i] ^= 1 << b
+        out.append(("bit %d of byte %d flipped" % (b, i), bytes(m)))
+    return out
+
+
+def _decode_with(fn, data):
+    try:
+        r = fn(data)
+    except Exception as e:  # noqa: BLE001
+        return ["raise", _cls(e)], None
+    if not isinstance(r, (tuple, list)):
+        return ["returned", type(r).__name__], None
+    vals = list(r)
+    return ["ok", [_canon(x) for x in vals]], vals
+
+
+def _observe_paths(case, row_obj, rec, base_out, base_vals):
+    import orso.row as R
+    from orso.compute.compiled import from_bytes_cython
+
+    paths = []
+    entries = [("cython", None)] + [(c, _row_class(*c)) for c in _path_classes(case, len(row_obj), len(rec))]
+    samples = _path_samples(rec)
+    for name, cls in entries:
+        p = {"cls": name}
+        if cls is not None:
+            real = R.time
+            R.time = _Clock(real, case["ts"])
+            try:
+                rec2 = cls(tuple(row_obj)).as_bytes
+                p["enc"] = "same" if type(rec2) is bytes and rec2 == rec else ["ok", _spec(rec2)] if type(rec2) is bytes else ["raise", "Other:not-bytes"]
+            except Exception as e:  # noqa: BLE001
+                p["enc"] = ["raise", _cls(e)]
+            finally:
+                R.time = real
+            fn = cls.from_bytes
+        else:
+            p["enc"] = "same"
+            fn = from_bytes_cython
+        out, vals = _decode_with(fn, rec)
+        if vals is not None and len(vals) == len(row_obj) and all(_strict_eq(a, b) for a, b in zip(row_obj, vals)):
+            out = ["ok-same"]
+        p["dec"] = out
+        p["bad"] = []
+        for label, data in samples:
+            o, _ = _decode_with(fn, data)
+            if o != ["raise", "DataError"]:
+                p["bad"].append([label, o])
+        paths.append(p)
+    return paths
+
+
+def _path_name(name):
+    if name == "cython":
+        return "orso.compute.compiled.from_bytes_cython"
+    return "a class made by Row.create_class(%d field names%s)" % (name[0], ", tuples_only=True" if name[1] else "")
 
 
 def _observe_cap(case):
@@ -886,6 +982,19 @@ def oracle(case, obs):
         if claimed and o != DE:
             what = "version nibble" if i == 0 else "length field"
             return f"flipping bit {b} of byte {i} ({what}) must be rejected with DataError, got {str(o)[:200]}"
+    # the property is about serialising and decoding a row, whichever row class or decoder entry point is used
+    for p in obs.get("paths", []):
+        who = _path_name(p["cls"])
+        if p["enc"] != "same" and p["enc"][0] != "ok":
+            why = _emit_verdict(row, p["enc"], None)
+            if why is not None:
+                return f"through {who}: {why}"
+        why = _emit_verdict(row, ["ok"], p["dec"])
+        if why is not None:
+            return f"the record decoded through {who}: {why}"
+        if p["bad"]:
+            label, o = p["bad"][0]
+            return f"the record with {label}, handed to {who}, must be rejected with DataError, got {str(o)[:200]}"
     return None
 
 
@@ -1079,6 +1188,22 @@ def to_coq(case, obs):
             oc = _coq_outcome(o)
             if oc is not None and len(oc) < OUTCOME_LIT_LIMIT:
                 muts.append("(Flip %s %s, %s)" % (L.N(i), L.N(b), oc))
+    clean = []
+    for p in obs.get("paths", []):
+        c = "Cython" if p["cls"] == "cython" else "(Made %s %s)" % (L.N(p["cls"][0]), L.boolean(p["cls"][1]))
+        if p["enc"] == "same" and p["dec"] == obs["dec"] and not p["bad"]:
+            clean.append(c)
+            continue
+        if p["enc"] != "same":
+            e2 = "(ERaise %s)" % _coq_exn(p["enc"][1]) if p["enc"][0] != "ok" else "(EHash %s %s)" % (L.N(len(_unspec(p["enc"][1]))), L.N(_digest(_unspec(p["enc"][1]))))
+            muts.append("(EncVia %s (Some %s), OSame)" % (c, e2))
+        oc = _coq_outcome(p["dec"])
+        if oc is not None and len(oc) < OUTCOME_LIT_LIMIT:
+            muts.append("(Via %s (Extend []), %s)" % (c, oc))
+        if p["bad"]:
+            muts.append("(Paths [%s], OSame)" % c)       # the model rejects every sample: reported as a mismatch
+    if clean and obs["len"] <= PATHS_COQ_LIMIT:      # larger records: the second entry points are judged by the oracle only
+        muts.append("(Paths %s, OSame)" % L.lst(clean))
     return ("row", "((%s, %s, %s, %s, %s) : row_case)" % (ts, row_term, enc, dec, L.lst(muts)))
 
 
@@ -1539,6 +1664,11 @@ def corpus():
                 yield {"kind": "row", "ts": 1, "row": [["nest", inner, shape, leaf]], "tears": [0, 13, 14, 15, 100], "suffixes": ["00"], "flips": "all"}
     for delta in (-1, 0, 1):
         yield {"kind": "cap", "delta": delta}
+    # every row width 0..7 through row classes with 0..5 field names, plain and tuples_only (narrower, as wide, wider)
+    grid = [[n, t] for n in range(6) for t in (False, True)]
+    for w in range(8):
+        yield {"kind": "row", "ts": TS_DEFAULT + w, "row": [NESTED_ROW[(3 * w + i) % len(NESTED_ROW)] for i in range(w)], "tears": "all", "suffixes": ["00"],
+               "flips": "all", "classes": grid}
     yield from _fixed_raw()
     yield from _fixed_sched()
 
